@@ -88,6 +88,7 @@ func c12nGen(cw *caseWriter, tier string, r *rng) {
 }
 
 func runC12(cw *caseWriter, tier string, seed uint64) {
+	runC11race(cw, tier, seed) // a snapshot racing applies must leave the log contiguous above it, or catch-up repeats the same transfer
 	runC12repl(cw, tier, &rng{s: seed*31 + 5})
 	runC12converge(cw, tier, &rng{s: seed*37 + 3})
 	r := &rng{s: seed}
